@@ -15,5 +15,40 @@ CONFIGS = [
 ]
 
 
+def table():
+    """operations outside the USim menu in states where they can complete at once, next to k spinners"""
+    actors = {
+        'transfer_zero': ({'pipe': 2}, [{'op': 'transfer', 'i': 1, 'v': 0, 'l': 0}]),
+        'transfer_zero_limited': ({'pipe': 2}, [{'op': 'transfer', 'i': 1, 'v': 0, 'l': 1}]),
+        'transfer_unbounded': ({'pipe': 0}, [{'op': 'transfer', 'i': 1, 'v': 3, 'l': 0}]),
+        'transfer_unbounded_zero': ({'pipe': 0}, [{'op': 'transfer', 'i': 1, 'v': 0, 'l': 2}]),
+        'collect_nothing': ({}, [{'op': 'flow', 'fop': 'collect', 'acts': [], 'k': 0, 'cons': 'prompt'}]),
+        'collect_instant': ({}, [{'op': 'flow', 'fop': 'collect', 'acts': [{'d': 0, 'f': False}], 'k': 0, 'cons': 'prompt'}]),
+        'first_instant': ({}, [{'op': 'flow', 'fop': 'first', 'acts': [{'d': 0, 'f': False}], 'k': 1, 'cons': 'prompt'}]),
+        'tick_zero': ({}, [{'op': 'tick', 'i': 1, 'kind': 'interval', 'p': 0}, {'op': 'tick', 'i': 1, 'kind': 'interval', 'p': 0}]),
+        'delay_zero': ({}, [{'op': 'tick', 'i': 2, 'kind': 'delay', 'p': 0}]),
+        'borrow_available': ({}, [{'op': 'borrow', 'p': 1, 'amt': 1}, {'op': 'leave'}]),
+        'claim_available': ({}, [{'op': 'claim', 'p': 1, 'amt': 1}, {'op': 'leave'}]),
+        'borrow_nothing': ({}, [{'op': 'borrow', 'p': 1, 'amt': 0}, {'op': 'leave'}]),
+        'increase': ({}, [{'op': 'inc', 'p': 1, 'amt': 1}, {'op': 'dec', 'p': 1, 'amt': 1}, {'op': 'rset', 'p': 1, 'amt': 2}]),
+    }
+    out = []
+    for name, (kw, ops) in sorted(actors.items()):
+        for k in (1, 2, 3):
+            for lead in (0, 1):     # the actor runs before / after the spinners in the first turn
+                spinners = [[{'op': 'instant'}] * 4 for _ in range(k)]
+                actor = [{'op': 'instant'}] * lead + ops
+                out.append((name, kw, [actor] + spinners if lead == 0 else spinners + [actor]))
+    return out
+
+
 def run(check):
-    usimrun.explore(check, OBS, CONFIGS, invariants=INV, limit=15000 if check.tier == 'quick' else None)
+    import puppet
+    runs = usimrun.explore(check, None, CONFIGS, invariants=INV, limit=15000 if check.tier == 'quick' else None)
+    # the same table for operations that live outside the USim menu (pipe, collect/first, tickers, resources)
+    for name, kw, prog in table():
+        log, outcome = puppet.run_program(prog, nroots=len(prog), nres=1, **kw)
+        check.programs += 1
+        runs.append(({'case': name, 'roots': prog}, log, len(prog)))
+    check.extra['table_cases'] = len(table())
+    usimrun.judge(check, OBS, runs)
